@@ -342,7 +342,11 @@ class C14(HistProp):
         out = HistProp.generate(self, g, tier)
         # construction: every spelling of the constructor arguments, valid and invalid values
         for _ in range(self.n(tier) * 2):
-            t = g.ty(g.rng.choice([1, 2, 2, 3]), composite_only=g.rng.random() < 0.8)
+            if g.rng.random() < 0.25:
+                # byte-like sequences have extra constructor spellings (bytes, hex string)
+                t = g.rng.choice([['list', 'u8', g.bound(1, 129)], ['vec', 'u8', g.bound(1, 129)], ['Bv', g.bound(1, 129)], ['Bl', g.bound(1, 129)]])
+            else:
+                t = g.ty(g.rng.choice([1, 2, 2, 3]), composite_only=g.rng.random() < 0.8)
             v = g.invalid_val(t) if g.rng.random() < 0.6 else g.val(t, 20)
             if v is None:
                 continue
